@@ -60,6 +60,7 @@ RULES = {
     "R10": "byte-string literal -> array literal of the same bytes",
     "R11": "`crate::a::b::X` / `super::X` / `Self::` path prefixes stripped or renamed for single-file assembly",
     "R14": "from_be_bytes/to_be_bytes -> stub with arithmetic spec",
+    "R27": "lock sequentialisation: `if let Ok([mut] G) = self.F.write()/read() {` -> `if lock_ok() { let G = &[mut] self.F;` and `&self` -> `&mut self` (std RwLock: write() is exclusive, read() is shared; a poisoned lock is the nondeterministic `lock_ok() == false`; the field type `Arc<RwLock<T>>` is declared as `T` in the overlay)",
     "G1": "match-arm guard `P if C => B` -> `P => { if C { B } else { E } }` with E (what the later arms do for P) given in the overlay; works around a Verus crash on guards reading mutable locals",
     "A1": "closure annotated with parameter types / ensures; body wrapped in braces verbatim",
     "S": "overlay substitution at an exact text anchor (reason given in overlay)",
@@ -184,6 +185,33 @@ def apply_common_rules(text, ed, rules, log, where):
                         log.append(("R26", where, f"{src_path}(..) -> {dst}(..)"))
                         i = j + 1; continue
                 i += 1
+    if "R27" in rules:
+        wrote = False
+        for i, t in enumerate(toks):
+            if t.kind == "ident" and t.text == "if":
+                n1 = next_code(toks, i)
+                if n1 is None or toks[n1].text != "let": continue
+                n2 = next_code(toks, n1); n3 = next_code(toks, n2)
+                if toks[n2].text != "Ok" or toks[n3].text != "(": continue
+                e3 = match_forward(toks, n3)
+                pat = [x.text for x in toks[n3 + 1:e3] if x.kind not in ("ws", "lc", "bc")]
+                if not (len(pat) == 1 or (len(pat) == 2 and pat[0] == "mut")): continue
+                g = pat[-1]
+                eq = next_code(toks, e3)
+                if toks[eq].text != "=": continue
+                ob = first_brace_at_depth0(toks, eq + 1)
+                expr = text[toks[eq].end:toks[ob].start].strip()
+                m = re.fullmatch(r"(self\.\w+)\.(write|read)\(\)", expr)
+                if not m: continue
+                mut_ = "mut " if m.group(2) == "write" else ""
+                wrote = wrote or m.group(2) == "write"
+                ed.replace(toks[n1].start, toks[ob].end, f"lock_ok() {{ let {g} = &{mut_}{m.group(1)};")
+                log.append(("R27", where, text[t.start:toks[ob].start].strip()))
+        if wrote:
+            m = re.search(r"\(\s*&self\b", text)
+            if m:
+                ed.replace(m.start(), m.end(), "(&mut self")
+                log.append(("R27", where, "&self -> &mut self"))
     if "R11" in rules:
         # `crate::a::b::X` / `super::X` -> `X` (single-file assembly has no module tree)
         i = 0
@@ -272,9 +300,11 @@ def apply_common_rules(text, ed, rules, log, where):
                     log.append(("R6w", where, text[t.start:toks[e].end][:90].replace("\n", " ")))
                     i = end + 1; continue
             i += 1
-    if "R6" in rules:
+    if "R6" in rules or "noR6" not in rules:
         # format!(LIT, args..) -> fmt__K(captured.., args..): an overlay-declared stub whose result is an uninterpreted
-        # (or Ec-discharged) function of the argument values
+        # (or Ec-discharged) function of the argument values. Always on: a format! the overlay does not name gets an
+        # auto-declared stub `fmt_auto__<n>(&args..)` with NO contract (nothing is known about the formatted text), so that
+        # new formatting code fails the obligations that depend on it instead of making the unit unreadable.
         kf = 0
         i = 0
         while i < len(toks):
@@ -296,6 +326,12 @@ def apply_common_rules(text, ed, rules, log, where):
                     args = ", ".join([c for c in caps] + ([rest] if rest else []))
                     names_ = _CUR_OPTS.get("fmts", "").split(",") if _CUR_OPTS.get("fmts") else []
                     nm_ = names_[kf] if kf < len(names_) and names_[kf] else f"fmt__{kf}"
+                    if "R6" not in rules or (not re.search(r"\bfn\s+" + re.escape(nm_) + r"\b", _OVERLAY_TEXT[0])):
+                        alist = [c for c in caps] + ([a_.strip() for a_ in _split_top_commas(rest)] if rest else [])
+                        alist = [a_ for a_ in alist if a_]
+                        nm_ = f"fmt_auto__{len(_AUTO_STUBS)}"
+                        _AUTO_STUBS.append((nm_, len(alist)))
+                        args = ", ".join(f"&({a_})" for a_ in alist)
                     ed.replace(t.start, toks[e].end, f"{nm_}({args})")
                     log.append(("R6", where, f"{nm_} <- " + text[t.start:toks[e].end][:90].replace("\n", " ")))
                     kf += 1
@@ -426,6 +462,21 @@ def apply_common_rules(text, ed, rules, log, where):
                 # &[..] only when used as a slice value; literal is `&'static [u8; N]` so `&[..]` keeps the type shape
                 ed.replace(t.start, t.end, "(&[" + ", ".join(f"0x{b:02X}u8" for b in bs) + "])")
                 log.append(("R10", where, t.text))
+
+
+_AUTO_STUBS = []
+_OVERLAY_TEXT = [""]
+
+
+def _split_top_commas(txt):
+    out, depth, cur = [], 0, ""
+    for ch in txt:
+        if ch in "([{": depth += 1
+        elif ch in ")]}": depth -= 1
+        if ch == "," and depth == 0: out.append(cur); cur = ""
+        else: cur += ch
+    if cur.strip(): out.append(cur)
+    return out
 
 
 _INT_TYPES = {"u8", "u16", "u32", "u64", "u128", "usize", "i8", "i16", "i32", "i64", "i128", "isize"}
@@ -623,6 +674,10 @@ def parse_opts(words):
 def assemble(overlay_path):
     """returns dict(text, linemap, log, functions, unit, properties, assumptions_scan)"""
     lines = open(overlay_path, encoding="utf-8").read().split("\n")
+    del _AUTO_STUBS[:]
+    _OVERLAY_TEXT[0] = "\n".join(lines)
+    for m_ in re.finditer(r"^//@ include (\S+)", _OVERLAY_TEXT[0], re.M):
+        _OVERLAY_TEXT[0] += open(os.path.join(os.path.dirname(overlay_path), m_.group(1)), encoding="utf-8").read()
     out_chunks = []  # (text, offs or None, srcfile)
     log = []
     functions = []  # dicts: name, file, line, has_requires
@@ -667,6 +722,17 @@ def assemble(overlay_path):
         elif d == "include":
             inc = os.path.join(os.path.dirname(overlay_path), words[1])
             raw.append(open(inc, encoding="utf-8").read())
+        elif d == "stdlib":
+            # common trusted std specs (lib/std_common.rs); an entry is skipped when the unit (or one of its includes)
+            # already declares the same function, because a second assume_specification is a hard error
+            whole = "\n".join(lines)
+            for m_ in re.finditer(r"^//@ include (\S+)", whole, re.M):
+                whole += open(os.path.join(os.path.dirname(overlay_path), m_.group(1)), encoding="utf-8").read()
+            std = open(os.path.join(os.path.dirname(overlay_path), "lib", "std_common.rs"), encoding="utf-8").read()
+            for ent in re.split(r"^//key:", std, flags=re.M)[1:]:
+                key, body = ent.split("\n", 1)
+                if key.strip() in whole: continue
+                raw.append(body.rstrip("\n"))
         else:
             if cur is None: raise ExtractError(f"{overlay_path}:{i+1}: section outside item: {ln}")
             pos, opts = parse_opts(words[1:])
@@ -697,6 +763,15 @@ def assemble(overlay_path):
                 linemap[l] = (os.path.relpath(sf.path, "/repo"), sf.line_of(o))
         line += t.count("\n")
         text += t
+    if _AUTO_STUBS:
+        # auto-declared formatting stubs (see R6): generic over the argument types, no contract
+        decl = "".join(
+            f"#[verifier::external_body]\nfn {nm}<{', '.join(f'A{i}' for i in range(n))}>({', '.join(f'a{i}: &A{i}' for i in range(n))}) -> (r: String) {{ unimplemented!() }}\n"
+            if n else f"#[verifier::external_body]\nfn {nm}() -> (r: String) {{ unimplemented!() }}\n"
+            for (nm, n) in _AUTO_STUBS)
+        k = text.rfind("\n}\nfn main")
+        if k < 0: raise ExtractError("cannot place auto-declared formatting stubs (no closing `}` + `fn main`)")
+        text = text[:k + 1] + decl + text[k + 1:]
     return dict(text=text, linemap=linemap, log=log, functions=functions, **meta)
 
 
@@ -1246,6 +1321,8 @@ def build_item(cur, log):
         rendered_sig, _ = _render_sig_only(text, toks, k_name, k_body, opts, sig_txt, has_ret)
         if "R11" in rules:
             rendered_sig = re.sub(r"\b(?:crate|super)::(?:[a-z_][a-z0-9_]*::)*", "", rendered_sig)
+        if any(l_[0] == "R27" and l_[1] == where and "&mut self" in l_[2] for l_ in log):
+            rendered_sig = re.sub(r"\(\s*&self\b", "(&mut self", rendered_sig, count=1)
         t += "\n" + rendered_sig
         offs += [None] * (len(rendered_sig) + 1)
         fmeta["has_vac"] = True
